@@ -85,9 +85,11 @@ def extract_internal_procedures(procedure):
     for r in procedure.subroutines:
         new_procedures += [extract_internal_procedure(procedure, r.name)]
 
-    # Remove all subroutines (or functions) from the CONTAINS section.
-    newbody = tuple(r for r in procedure.contains.body if not isinstance(r, Subroutine))
-    procedure.contains = procedure.contains.clone(body=newbody)
+    # Remove all subroutines (or functions) from the CONTAINS section
+    # (a procedure without CONTAINS section has no internal procedures: nothing to rebuild).
+    if procedure.contains is not None:
+        newbody = tuple(r for r in procedure.contains.body if not isinstance(r, Subroutine))
+        procedure.contains = procedure.contains.clone(body=newbody)
     return new_procedures
 
 
